@@ -335,6 +335,11 @@ class Builder:
                         else:
                             ret = a
                         continue
+                    if inp and self._always_ok(e) and not F.find_all(e, lambda n_: n_.get("k") == "path" and n_["segs"] == [inp]):
+                        # value-level code choosing between several `Ok(..)` (a match / if over what was parsed): it reads no
+                        # input and cannot fail
+                        ret = e
+                        continue
                 unknown.append(st)
                 continue
             if st["k"] == "item":
@@ -385,6 +390,25 @@ class Builder:
                     key, ts = r
                     return N("ref", e, fn=key, targs=ts, extra=e["args"][1:])
         return None
+
+    def _always_ok(self, e, depth=0):
+        """Every way through `e` ends in `Ok(..)` or diverges (unreachable!/panic!)."""
+        e = strip_refs(e)
+        k = e.get("k")
+        if depth > 20:
+            return False
+        if k == "call" and e["f"].get("k") == "path" and e["f"]["segs"] == ["Ok"] and len(e["args"]) == 1:
+            return True
+        if k == "macro" and e["name"] in ("unreachable", "panic", "todo", "unimplemented"):
+            return True
+        if k == "match":
+            return bool(e["arms"]) and all(self._always_ok(a["body"], depth + 1) for a in e["arms"])
+        if k == "if":
+            return e.get("else") is not None and self._always_ok(e["then"], depth + 1) and self._always_ok(e["else"], depth + 1)
+        if k == "block":
+            st = e["stmts"]
+            return bool(st) and st[-1]["k"] == "expr" and not st[-1].get("semi") and all(x["k"] in ("let", "expr") for x in st) and self._always_ok(st[-1]["e"], depth + 1)
+        return False
 
     def _infer_targs(self, ref, caller, tsubst):
         """`helper(input)` in tail position with the helper's type parameters left to inference: they are fixed by the
@@ -551,7 +575,7 @@ class Builder:
                 ir = self.pe(e["expanded"], env)
                 ir = dict(ir)
                 ir["macro"] = e["name"]
-                ir["macro_args"] = e["args"]
+                ir["macro_args"] = e.get("args")
                 return ir
             return N("opaque", e, src=src(e))
         if k == "block" and len(e["stmts"]) == 1 and e["stmts"][0]["k"] == "expr":
